@@ -3,6 +3,7 @@ import hashlib
 
 from asyncfix import FMsg
 from asyncfix.connection import ConnectionState
+from asyncfix.errors import FIXConnectionError
 from asyncfix.journaler import Journaler
 from asyncfix.message import FIXMessage, MessageDirection
 from vlib.reffix import ref_check_frame
@@ -62,6 +63,29 @@ class Duo:
             self.maybe[side].add(pid)
             return "failed", pid
         return "refused", pid
+
+    def set_responder(self, side):
+        """From now on the application of `side` answers every received (non-answer) message from inside on_message."""
+        ep = self.ep[side]
+
+        async def answer(msg, side=side, ep=ep):
+            ref = str(msg.get(11, "?"))
+            if "r" in ref:
+                return  # never answer an answer
+            self.uid += 1
+            pid = f"{side}r{self.uid}"
+            n0 = ep._session.next_num_out
+            try:
+                await ep.send_msg(FIXMessage(FMsg.NEWORDERSINGLE, {11: pid, 55: "SYM", 58: f"answer to {ref}"}))
+            except FIXConnectionError:
+                if ep._session.next_num_out != n0:
+                    self.maybe[side].add(pid)
+                return
+            except (ConnectionError, OSError):
+                self.maybe[side].add(pid)
+                return
+            self.accepted[side].append(pid)
+        ep.responder = answer
 
     def send_test_req(self, side):
         """The endpoint's own keep-alive probe (TestRequest); the peer answers with a Heartbeat when it arrives."""
